@@ -45,6 +45,8 @@ func init() {
 		c.SetCases(asmCasesHdr, "AsmRun.mismatches")
 		c.shard = 12
 		runStartRandom(c, c.Scale(6, 60)) // chains loaded by server.Start: once, in order, behind every listener
+		startScenarioRange(c)             // ... and every listener's receive loop hands whole datagrams to the chain, whatever came before
+		startScenarioPD(c)
 		runConfig(c) // the plugin lists LoadPlugins is given come from config.Load: exactly the listed items, in file order
 		c.Extra["rule"] = fmt.Sprint(rule) + " || DHCPv6: " + fmt.Sprint(rule6) + " || built-in plugins: " + fmt.Sprint(c.Extra["rule"])
 	}
@@ -696,8 +698,8 @@ func randReq4(c *Ctx) req4spec {
 		if s.extra == nil {
 			s.extra = map[uint8][]byte{}
 		}
-		code := []uint8{80, 80, 50, 51, 57, 60, 77, 93, 118, 255 - 1}[r.Intn(10)]
-		s.extra[code] = [][]byte{{}, {1}, {10, 0, 0, 9}, {0, 0, 14, 16}}[r.Intn(4)]
+		code := []uint8{80, 80, 50, 51, 57, 60, 77, 93, 118, 255 - 1, 97, 97, 94}[r.Intn(13)]
+		s.extra[code] = [][]byte{{}, {1}, {10, 0, 0, 9}, {0, 0, 14, 16}, {0, 1, 2, 3, 4, 5, 6, 7, 8, 9, 10, 11, 12, 13, 14, 15, 16}}[r.Intn(5)]
 	}
 	if r.Pct(8) {
 		// a small maximum message size against a long relay-agent / client identifier: the echo is not optional
@@ -807,7 +809,12 @@ func runSrv4(c *Ctx) {
 	// --- (4) malformed datagrams ---
 	for i := 0; i < c.Scale(120, 2000); i++ {
 		raw := buildReq4(randReq4(c))
-		switch r.Intn(4) {
+		switch r.Intn(5) {
+		case 4:
+			// cut exactly at the End option: every option is whole, only End (and the padding) is missing
+			if k := bytes.LastIndexByte(bytes.TrimRight(raw, "\x00"), 255); k >= 240 {
+				raw = raw[:k]
+			}
 		case 0:
 			raw = raw[:r.Intn(len(raw))]
 		case 1:
